@@ -378,6 +378,9 @@ func genCase(leg string) func(t *rapid.T) Case {
 			{Path: ".terraform", Kind: "dir", Mode: 0755}, {Path: ".terraform/plugins", Kind: "dir", Mode: 0755},
 			{Path: ".terraform/plugins/p", Kind: "file", Content: "IN:plugin", Mode: 0644},
 			{Path: ".terraform/modules", Kind: "dir", Mode: 0755}, {Path: ".terraform/modules/m.json", Kind: "file", Content: "IN:mod", Mode: 0644},
+			// a checkout below the kept directory: the built-in .git rule has the last word over the re-inclusion
+			{Path: ".terraform/modules/m", Kind: "dir", Mode: 0755}, {Path: ".terraform/modules/m/.git", Kind: "dir", Mode: 0755}, {Path: ".terraform/modules/m/.git/HEAD", Kind: "file", Content: "IN:head", Mode: 0644},
+			{Path: ".terraform/modules/m/main.tf", Kind: "file", Content: "IN:main", Mode: 0644},
 		}
 		have := map[string]bool{}
 		for _, n := range c.Tree {
